@@ -245,11 +245,13 @@ Definition spaces (n : N) : bytes := repeat 32 (N.to_nat n).
 Fixpoint after_last_nl (s : bytes) (i last_ : N) : N :=
   match s with [] => last_ | b :: r => after_last_nl r (i + 1) (if b =? 10 then i + 1 else last_) end.
 
-Definition caret_line (w : bytes) (ls : N) (msg : bytes) : bytes :=
+(* frame and marker rows use the gutter of the numbered rows (F73, fixed: they used a fixed width of one digit) *)
+Definition caret_line (w : bytes) (ls gw : N) (msg : bytes) : bytes :=
   let pre := slice w 0 ls in
   let lbs := after_last_nl pre 0 0 in
   let cc := char_count (slice w lbs ls) in
-  [32; 32; 124; 32] ++ spaces cc ++ [94] ++ (match msg with [] => [] | _ => 32 :: msg end) ++ [10].
+  spaces gw ++ [32; 124; 32] ++ spaces cc ++ [94] ++ (match msg with [] => [] | _ => 32 :: msg end) ++ [10].
+Definition frame_line (gw : N) : bytes := spaces gw ++ [32; 124; 10].
 
 Record fw_state := { fw_out : bytes; fw_cur : N; fw_done : bool }.
 
@@ -258,7 +260,7 @@ Definition fw_step (w : bytes) (ls row wsr wsar we gw : N) (msg : bytes) (st : f
   let line := strip_cr (fst p) in
   let display := add_sat wsar (fw_cur st) - wsr in
   let out := fw_out st ++ pad_left gw (dec display) ++ [32; 124; 32] ++ line ++ [10] in
-  let out := if fw_cur st =? row then out ++ caret_line w ls msg else out in
+  let out := if fw_cur st =? row then out ++ caret_line w ls gw msg else out in
   let cur := fw_cur st + 1 in
   {| fw_out := out; fw_cur := cur; fw_done := we <? cur |}.
 
@@ -290,15 +292,15 @@ Definition fmt_window (text : bytes) (line col : N) (mapping : option N) (msg : 
       let maxrow := map_row mapping we in
       let gw := blen (dec maxrow) in
       let st := fold_left (fw_step w ls row ws wsar we gw msg) (split_nl w)
-                  {| fw_out := [32; 32; 124; 10]; fw_cur := ws; fw_done := false |} in
+                  {| fw_out := frame_line gw; fw_cur := ws; fw_done := false |} in
       let out := fw_out st in
       let out :=
         if (we =? total) && ends_with_nl w && (fw_cur st <=? we) then
           let display := add_sat wsar (fw_cur st) - ws in
           let o := out ++ pad_left gw (dec display) ++ [32; 124; 10] in
-          if fw_cur st =? row then o ++ caret_line w ls msg else o
+          if fw_cur st =? row then o ++ caret_line w ls gw msg else o
         else out in
-      out ++ [32; 32; 124; 10]
+      out ++ frame_line gw
     end
   end.
 
